@@ -6,7 +6,8 @@
 (* content-affecting way iff the model of the builder gives a different view of the corpus.    *)
 EXTENDS IncrementalOps, Json
 
-CONSTANTS MaxSteps, Strict, InitAll
+CONSTANTS MaxSteps, Strict, InitAll,
+          Fixed      \* FALSE: Classify / merge as the code is; TRUE: with the proposed fix
 
 VARIABLES built, last, steps
 vars == <<built, last, steps>>
@@ -65,12 +66,12 @@ Init == /\ built \in {c \in Cfgs : /\ c.DisableCTags = (c.CTagsPath = "") /\ c.P
         /\ steps = 0
 
 Request(req) ==
-  LET s == Classify("none", built, req) IN
+  LET s == Classify(Fixed, "none", built, req) IN
   /\ steps < MaxSteps
   /\ steps' = steps + 1
   /\ last' = [req |-> req, state |-> s, before |-> built]
   /\ built' = CASE s = "equal" -> built                         \* Skip
-                [] s = "meta-mismatch" -> Merged(built, req)    \* MetaOnly (mergeMeta)
+                [] s = "meta-mismatch" -> Merged(Fixed, built, req)    \* MetaOnly (mergeMeta)
                 [] OTHER -> req                                 \* Reindex
 
 Next == \E req \in Near(built) : Request(req)
@@ -99,11 +100,11 @@ MetaApplied ==
 
 \* metadata-only changes do not cause a re-index
 NoNeedlessReindex ==
-  (Diff(last.before, last.req) \subseteq MutableFields /\ MutableChange(last.before, last.req))
+  (Diff(last.before, last.req) \subseteq MutableFields /\ MutableChange(Fixed, last.before, last.req))
      => last.state = "meta-mismatch"
 
 \* any change of branches or of a hashed option re-indexes
 ChangeReindexes ==
-  (last.before.Branches # last.req.Branches \/ Hash(last.before) # Hash(last.req)) =>
+  (last.before.Branches # last.req.Branches \/ Hash(Fixed, last.before) # Hash(Fixed, last.req)) =>
      last.state \in {"content-mismatch", "option-mismatch"} /\ built = last.req
 =============================================================================
